@@ -1,3 +1,4 @@
+import Hcl.Theorems.C07
 import Hcl.Proofs.Settle
 open Rust
 
@@ -156,3 +157,49 @@ theorem C06_report (s : State) (timeout : Nat) :
     split at h
     · simp only [Prod.mk.injEq, Option.some.injEq] at h; exact h.1.symm
     · cases h
+
+/-! ### for every accepted program -/
+
+theorem runLoop_sound {fl : Flags} {Γ : Ctx} {κ : Env} {p : Program} {avail : List String}
+    (hp : ProgramOK fl Γ κ p avail) (timeout : Nat) : ∀ (fuel : Nat) (s : State),
+    StateOK Γ s → (∀ x ∈ avail, s.values.contains x = true) → (∀ b ∈ p.banks, BankOK Γ s.values b) →
+    0 < fuel → timeout < s.cycle + fuel →
+    runLoop fl p timeout fuel s = some (.error .divideByZero) ∨
+    ∃ t, runLoop fl p timeout fuel s = some (.ok t) ∧ isDone t timeout = true
+  | 0, _, _, _, _, h, _ => by omega
+  | fuel+1, s, hs, hav, hb, _, hf => by
+    simp only [runLoop]
+    by_cases hd : isDone s timeout = true
+    · simp only [hd, if_true]
+      exact Or.inr ⟨s, rfl, hd⟩
+    · simp only [hd]
+      rcases stepCycle_sound hp s hs hav hb with ⟨s₁, h₁, hs₁, hc₁, hm₁⟩ | herr
+      · simp only [h₁]
+        have hnd : s.cycle < timeout := by
+          unfold isDone at hd
+          simp at hd
+          omega
+        exact runLoop_sound hp timeout fuel s₁ hs₁ (fun x hx => hm₁ x (hav x hx))
+          (fun b hbb => (hb b hbb).mono hm₁) (by omega) (by omega)
+      · simp only [herr]
+        exact Or.inl rfl
+
+/-- **C06 for every accepted program**: started from the initial state on any memory image with any timeout, the run
+    loop of an accepted program ends (it never needs more than `timeout + 1` turns), and it ends either in a state that
+    is done — its status is neither AOK nor BUB, or the cycle budget is used up — after at most `timeout` cycles, or
+    with an explicit division-by-zero report; no other failure is possible. -/
+theorem C06_accepted (fl : Flags) (cls : CharClass) (o : Orders) (stmts : List Stmt) (p : Program)
+    (ho : OrdersOK o) (hwf : StmtsWF stmts)
+    (h : Program.new fl cls o y86FixedFunctions stmts = .ok p) (mem : Mem) (hmem : mem.BytesOK) (timeout : Nat) :
+    ∃ s0, State.init p mem = .ok s0 ∧
+      (runLoop fl p timeout (timeout + 1) s0 = some (.error .divideByZero) ∨
+       ∃ t, runLoop fl p timeout (timeout + 1) s0 = some (.ok t) ∧ isDone t timeout = true ∧ t.cycle ≤ timeout) := by
+  obtain ⟨W, known, hp, vals, hv1, hv2, hv3, hv4⟩ := Program_new_sound fl cls o stmts p ho hwf h
+  refine ⟨{ values := vals, regs := List.replicate 16 0, mem := mem }, ?_, ?_⟩
+  · simp [State.init, hv1, bind, Except.bind, pure, Except.pure]
+  · have hs : StateOK W.toCtx { values := vals, regs := List.replicate 16 0, mem := mem } :=
+      { vals := hv2, regsLen := by simp, regsBound := by intro r hr; simp at hr; rw [hr]; simp [U64]
+        memBytes := hmem }
+    rcases runLoop_sound hp timeout (timeout + 1) _ hs hv3 hv4 (by omega) (by simp) with h1 | ⟨t, h1, h2⟩
+    · exact Or.inl h1
+    · exact Or.inr ⟨t, h1, h2, C06_within_timeout fl p timeout (timeout + 1) _ t rfl h1⟩
